@@ -1616,8 +1616,10 @@ def check_packages(ctx, pkgs, stream, direct=True):
                 unres = {(x[0], x[1]) for x in dmi if ["unresolved"] in (x[2], x[3])}
                 tangled = star_cycle_dependents(pkg)
                 dmi = [x for x in dmi if not (x[0] in tangled and x[1] not in ("<module>", "__all__") and x[2] is not None and x[3] is not None)]
+                # (nor is anything below such a submodule)
+                hid = {x[0] for x in dmi if x[1] == "<module>" and tuple(x[0].rsplit(".", 1)) in unres}
                 dmi = [x for x in dmi if ["unresolved"] not in (x[2], x[3])
-                       and not (x[1] == "<module>" and tuple(x[0].rsplit(".", 1)) in unres)]
+                       and not (x[1] == "<module>" and (x[0] in hid or any(x[0].startswith(h + ".") for h in hid)))]
             ctx.count("c_compared")
             if dmi:
                 ctx.tie_failure("correspondence", "griffe_load(model) vs griffe.load", {"diffs": dmi[:6], "model_flags": [ml["f3"], ml["dropped"], ml["xpending"], ml["stale"]]}, case)
